@@ -45,9 +45,13 @@ def cases(tier, seed):
                                             "fmt": fmt, "si": si,
                                             "lat": [1, 2] if tier == "quick" else [0, 1, 2, 3]})
                                 idx += 1
-    if tier == "quick":
-        # VERIF_SEED adds one slice of the thorough table (thorough = union of all slices)
-        pass
+    # rows of large magnitude and tiny relative width (must stay ranged rows with a slack)
+    for vk in (["free", "boxed"], ["lower", "fixed"]):
+        for rows in ([("affine", "narrow")], [("sphere", "narrow"), ("affine", "eqoff")], [("affine", "eq0"), ("bilinear", "narrow")]):
+            for si in range(6):
+                out.append({"n": 2, "vk": vk, "rows": [list(r) for r in rows], "obj": "qfull", "fmt": FMTS[idx % 4], "si": si,
+                            "lat": [1, 2] if tier == "quick" else [0, 1, 2, 3]})
+                idx += 1
     return out
 
 
